@@ -111,6 +111,7 @@ func runLBAcct(x *X) {
 		}
 	}
 
+	removedNow := map[string]bool{} // removed by the operator at the moment: not in the admin list
 	check := func(where string) {
 		if !x.Settle(onErr) {
 			return
@@ -171,7 +172,7 @@ func runLBAcct(x *X) {
 			if int(gaugeM[b.name]) != b.inflight {
 				x.Violate("C13", "C13/gauge-metrics"+cause, "backend %s: metrics active_connections=%d but %d requests are in flight (%s)", b.name, gaugeM[b.name], b.inflight, where)
 			}
-			if int(gaugeA[b.name]) != b.inflight {
+			if int(gaugeA[b.name]) != b.inflight && !removedNow[b.name] {
 				x.Violate("C13", "C13/gauge-admin"+cause, "backend %s: /v1/backends active_connections=%d but %d requests are in flight (%s)", b.name, gaugeA[b.name], b.inflight, where)
 			}
 		}
@@ -232,12 +233,41 @@ func runLBAcct(x *X) {
 			steps = append(steps, fmt.Sprintf("held(%d)", k))
 			check("while-held")
 			x.Probe("gauge-while-held")
+			// the operator removes a backend that still has requests in flight: they finish on
+			// it, and its published gauge follows them down to zero (not below, not at once)
+			var gone *stubBackend
+			if len(net.order) >= 2 && c.Intn(3, "remove-while-held") == 0 {
+				net.mu.Lock()
+				for _, b := range net.order {
+					if b.inflight > 0 {
+						gone = b
+						break
+					}
+				}
+				net.mu.Unlock()
+				if gone != nil {
+					x.Do("remove", func() { h.lb.RemoveBackend(gone.name) }, onErr)
+					removedNow[gone.name] = true
+					steps = append(steps, "remove-in-flight("+gone.name+")")
+					check("removed-while-held")
+				}
+			}
 			net.mu.Lock()
 			for _, p := range plans {
 				p.released = true
 			}
 			net.mu.Unlock()
 			x.RunTasks(onErr)
+			if gone != nil {
+				check("after-removed-drained")
+				w := 1 + c.Intn(3, "w")
+				x.Do("re-add", func() {
+					if err := h.lb.AddBackend(config.BackendConfig{Name: gone.name, Address: "http://" + gone.host, Weight: w}); err != nil {
+						panic(err)
+					}
+				}, onErr)
+				delete(removedNow, gone.name)
+			}
 		}
 		check(fmt.Sprintf("after-step-%d", i))
 	}
